@@ -121,17 +121,18 @@ def c_diag_state(ctx, args):
 
 
 def c_sbrg(ctx, args):
-    n, terms, commuting = args        # terms [[g, coef(float dyadic)], ...]
+    n, terms, commuting = args[:3]        # terms [[g, coef(float dyadic)], ...]
+    max_rate = args[3] if len(args) > 3 else None         # None: the default (2.); otherwise the optional truncation rate (0 keeps no second-order term at all)
     H = pc.PauliPolynomial(NP.GS([t[0] for t in terms], 2 * n)).set_cs(np.array([t[1] for t in terms], dtype=np.complex128))
     try:
-        heff, circ = pc.SBRG(H)
+        heff, circ = pc.SBRG(H) if max_rate is None else pc.SBRG(H, max_rate=max_rate)
     except Exception as e:
         return {'kind': 'oracle', 'where': 'np:SBRG raised %s' % type(e).__name__, 'observed': str(e)[:150], 'expected': 'heff, circ',
                 'tags': ['identity_leading'] if not any(max(terms, key=lambda t: abs(t[1]))[0]) else []}
     for g in heff.gs:
         if any(int(g[2 * i]) for i in range(n)):
             return {'kind': 'oracle', 'where': 'np:SBRG effective Hamiltonian has a non-diagonal term', 'observed': [int(v) for v in g], 'expected': 'I/Z strings only'}
-    if ctx.model is not None and not ctx.search:
+    if ctx.model is not None and not ctx.search and max_rate is None:
         # the Gallina model of the whole SBRG loop (Model/Sbrg.v, exact Gaussian rationals): same strings in the same order, same circuit; coefficients agree up to
         # floating-point rounding (1/leading is not dyadic in general).  A decision of the loop that hinges on a near-tie cannot be compared: then the case is skipped.
         from fractions import Fraction as Fr
@@ -234,6 +235,8 @@ def run(ctx):
     do(ctx, 'sbrg', [1, [[[0, 0], 2.0]], True], nontrivial='w_id3')
     # corpus: witnesses of the fixed empty-second-order defect (off-diagonal terms survived into heff)
     do(ctx, 'sbrg', [1, [[[0, 1], 1.0], [[1, 0], 2.0 ** -20]], False], nontrivial='w_weak1', sample=True)
+    do(ctx, 'sbrg', [2, [[[0, 1, 0, 0], 1.0], [[1, 0, 0, 1], 0.3]], False, 0.5], nontrivial='w_rate')
+    do(ctx, 'sbrg', [3, [[[0, 1, 0, 1, 0, 0], 1.0], [[0, 0, 0, 1, 0, 1], 0.9], [[1, 0, 0, 0, 0, 0], 0.5], [[0, 0, 1, 0, 0, 0], 0.4], [[0, 0, 0, 0, 1, 0], 0.3]], False, 0], nontrivial='w_rate0')
     do(ctx, 'sbrg', [2, [[[0, 1, 0, 0], 1.0], [[1, 0, 1, 0], 2.0 ** -20], [[0, 0, 0, 1], 0.5]], False], nontrivial='w_weak2')
     # magnitudes: comparable ones, and a widely spread family (weak couplings whose second-order terms fall below the tolerance)
     mags = [2.0 ** (-k) * (1 + j / 8.0) for k in range(0, 6) for j in range(8)] + [2.0 ** (-k) for k in (12, 16, 20, 24, 30)]
@@ -263,4 +266,6 @@ def run(ctx):
         cs = sorted(rng.sample(mags, len(uniq)), reverse=(rng.random() < 0.5))
         terms = [[g, c * rng.choice([1, -1])] for g, c in zip(uniq, cs)]
         do(ctx, 'sbrg', [n, terms, commuting], nontrivial=('h', it))
+        if it % 2 == 0:          # the optional truncation rate, from "keep nothing" upwards (round() of a half goes to the even neighbour: 0.5 of one term keeps none)
+            do(ctx, 'sbrg', [n, terms, commuting, rng.choice([0, 0, 0.25, 0.5, 0.5, 1, 1.5, 4])], nontrivial=('hr', it))
         ctx.res.count('sbrg_commuting' if commuting else 'sbrg_generic')
